@@ -375,6 +375,21 @@ def check_slot_capacity(ck, prog, rule):
                 e = strip_casts(a[1])
                 idx_ok = shape_masked_shift(e, g.prov, "tail", flag="IORING_SETUP_SQE128", ctx=g)
         ck.ob(rule, "sqe-index=(tail&mask)<<shift", idx_ok, fn=g.path, detail="the slot index must be (tail & ring_mask) << shift, the shift decided by IORING_SETUP_SQE128 alone")
+    # the private tail moves only together with a slot being handed out: a refused request (None: ring full) that has moved the tail
+    # all the same makes the next flush publish a slot nobody filled - the kernel then runs whatever operation that slot held before
+    fnq = fns["get_next_sqe_slot"]
+    nones = [b["id"] for b in fnq["blocks"] if b["id"] in g.cfg.live_blocks() and any(s["k"] == "assign" and s["dst"]["l"] == 0 and not s["dst"].get("p") and s["rv"]["k"] == "agg" and s["rv"].get("variant") == "None" for s in b["stmts"])]
+    moved = []
+    for b in fnq["blocks"]:
+        if b.get("cleanup") or b["id"] not in g.cfg.live_blocks():
+            continue
+        for s in b["stmts"]:
+            if s["k"] == "assign" and s["dst"].get("p") and s["dst"]["p"][-1].get("k") == "field" and s["dst"]["p"][-1].get("n") == "tail" and (s["dst"]["p"][-1].get("adt") or "").endswith("UringSubmissionQueue"):
+                moved.append(b["id"])
+    if ck.anchor(rule, "get_next_sqe_slot moves the tail and can refuse", (moved and nones) or None):
+        bad = [b for b in moved if set(nones) & g.cfg.reachable_from(b)]
+        ck.ob(rule, "tail-moves-only-with-a-slot-handed-out", not bad, fn=g.path, site=g.site(bad[0]) if bad else None,
+              detail="submission_queue.tail is advanced on a way that can still answer None (no room): the next flush then publishes an entry nobody wrote")
 
 
 def check_cqe_index(ck, prog, rule):
